@@ -83,6 +83,7 @@ def shape(fn):
     import copy
     bound = _bound(fn)
     g = copy.deepcopy(fn)
+    g.decorator_list = []
     # docstrings do not take part
     for n in ast.walk(g):
         body = getattr(n, "body", None)
